@@ -766,6 +766,9 @@ impl<'g> CallRun<'g> {
                 }
                 settle = false;
             }
+            CallEvKind::Restart | CallEvKind::Repeat(_) => {
+                settle = false; // handled by the pair / history runner
+            }
             CallEvKind::Abort => {
                 if self.status == Status::Pending {
                     self.status = Status::Aborted;
@@ -1538,6 +1541,21 @@ fn run_body(c: &RtCase, lines: &mut Vec<String>, flags: &mut RtFlags) {
                 let prefix = format!("r{j}.");
                 match r {
                     Run::Call(cfg, evs) => {
+                        // `*<k>`: the run is first executed k times unobserved on the same graph value
+                        let (reps, evs): (usize, &[CallEv]) = match evs.first() {
+                            Some(CallEv { kind: CallEvKind::Repeat(k), .. }) => (*k, &evs[1..]),
+                            _ => (0, &evs[..]),
+                        };
+                        for _ in 0..reps {
+                            let mut scratch = Vec::new();
+                            let mut fl = RtFlags::default();
+                            let gref = if cfg.mutable {
+                                GRef::Mut(&mut g)
+                            } else {
+                                GRef::Shared(&g)
+                            };
+                            run_call_events(id, &prefix, gref, cfg, evs, &mut scratch, &mut fl);
+                        }
                         let gref = if cfg.mutable {
                             GRef::Mut(&mut g)
                         } else {
@@ -1552,7 +1570,8 @@ fn run_body(c: &RtCase, lines: &mut Vec<String>, flags: &mut RtFlags) {
             }
             // Oracle of C15: every later run once more, on a freshly built graph (`f<j>.` lines;
             // implementation against implementation, the model does not print them).
-            for (j, r) in runs.iter().enumerate().skip(1) {
+            // (run 0 too: it may have been preceded by unobserved repetitions)
+            for (j, r) in runs.iter().enumerate() {
                 let Some(mut fresh) = build_graph(&c.ops) else {
                     continue;
                 };
@@ -1560,6 +1579,10 @@ fn run_body(c: &RtCase, lines: &mut Vec<String>, flags: &mut RtFlags) {
                 let mut fl = RtFlags::default();
                 match r {
                     Run::Call(cfg, evs) => {
+                        let evs: &[CallEv] = match evs.first() {
+                            Some(CallEv { kind: CallEvKind::Repeat(_), .. }) => &evs[1..],
+                            _ => &evs[..],
+                        };
                         let gref = if cfg.mutable {
                             GRef::Mut(&mut fresh)
                         } else {
@@ -1574,40 +1597,78 @@ fn run_body(c: &RtCase, lines: &mut Vec<String>, flags: &mut RtFlags) {
             }
         }
         Body::Y(a, b, evs) => {
+            // `!` finishes the side's current run and starts a fresh one (prefix `B2.`, `B3.`, ...)
+            fn side_prefix(f: bool, b: bool, gen: usize) -> String {
+                format!(
+                    "{}{}{}.",
+                    if f { "f" } else { "" },
+                    if b { "B" } else { "A" },
+                    if gen <= 1 { String::new() } else { gen.to_string() }
+                )
+            }
             let mut ra = CallRun::new(GRef::Shared(&g), a);
             let mut rb = CallRun::new(GRef::Shared(&g), b);
+            let mut gens = [1usize, 1usize];
             for (is_b, ev) in evs {
-                let (run, prefix) = if *is_b {
-                    (&mut rb, "B.")
-                } else {
-                    (&mut ra, "A.")
-                };
+                let side = *is_b as usize;
+                let prefix = side_prefix(false, *is_b, gens[side]);
+                let (run, cfg) = if *is_b { (&mut rb, b) } else { (&mut ra, a) };
+                if ev.kind == CallEvKind::Restart {
+                    finish_call(id, &prefix, run, lines, flags);
+                    *run = CallRun::new(GRef::Shared(&g), cfg);
+                    gens[side] += 1;
+                    continue;
+                }
                 if run.ended() {
                     continue;
                 }
                 let body = run.apply(ev);
                 lines.push(format!("OBS {id} {prefix}{body}"));
             }
-            finish_call(id, "A.", &mut ra, lines, flags);
-            finish_call(id, "B.", &mut rb, lines, flags);
+            finish_call(id, &side_prefix(false, false, gens[0]), &mut ra, lines, flags);
+            finish_call(id, &side_prefix(false, true, gens[1]), &mut rb, lines, flags);
             drop(ra);
             drop(rb);
-            // Oracle of C20: each run alone, on its own freshly built graph, with its own events
-            // (`fA.` / `fB.` lines; the model does not print them).
-            for (which, cfg, pre) in [(false, a, "fA."), (true, b, "fB.")] {
-                let Some(fresh) = build_graph(&c.ops) else {
-                    continue;
-                };
+            // Oracle of C20: every run alone, on its own freshly built graph, with its own events
+            // (`fA.` / `fB.` / `fB2.` ... lines; the model does not print them).
+            for (which, cfg) in [(false, a), (true, b)] {
+                let mut gen = 1usize;
                 let mut fl = RtFlags::default();
-                let mut run = CallRun::new(GRef::Shared(&fresh), cfg);
+                let mut fresh = match build_graph(&c.ops) {
+                    Some(f) => f,
+                    None => continue,
+                };
+                let mut pending: Vec<&CallEv> = Vec::new();
+                let mut segments: Vec<Vec<&CallEv>> = Vec::new();
                 for (is_b, ev) in evs {
-                    if *is_b != which || run.ended() {
+                    if *is_b != which {
                         continue;
                     }
-                    let body = run.apply(ev);
-                    lines.push(format!("OBS {id} {pre}{body}"));
+                    if ev.kind == CallEvKind::Restart {
+                        segments.push(std::mem::take(&mut pending));
+                    } else {
+                        pending.push(ev);
+                    }
                 }
-                finish_call(id, pre, &mut run, lines, &mut fl);
+                segments.push(pending);
+                for seg in segments {
+                    let pre = side_prefix(true, which, gen);
+                    {
+                        let mut run = CallRun::new(GRef::Shared(&fresh), cfg);
+                        for ev in seg {
+                            if run.ended() {
+                                continue;
+                            }
+                            let body = run.apply(ev);
+                            lines.push(format!("OBS {id} {pre}{body}"));
+                        }
+                        finish_call(id, &pre, &mut run, lines, &mut fl);
+                    }
+                    gen += 1;
+                    if let Some(f) = build_graph(&c.ops) {
+                        fresh = f;
+                    }
+                }
             }
         }
         Body::W(a, b, evs) => {
